@@ -12,16 +12,18 @@ R1 mirrored updates (P12).  In every method of DirectedGraph and its subclasses 
    A mutation the extractor cannot interpret (`update`, `|=`, rebinding a map ...) is an analysis error.
 R2 encapsulation (P8).  `_successors/_predecessors` are touched only by methods of these classes (whole
    program, incl. string access), and no method returns an internal map / set / dict view: query methods
-   return fresh copies.
+   return fresh copies; each directional query (successors/out_degree/get_sinks vs predecessors/in_degree/
+   get_sources) reads its own view.
 R3 pruning guards.  A predecessor is queued for removal only when its successor set is known to be empty
    *after* the edge to the removed node was dropped (and, in `remove_nodes`, only under `prune_dead_end`);
    `promote_to_source` hands exactly that queue to `remove_nodes` with pruning on and returns its result;
+   wrappers (`remove_node`) forward `prune_dead_end`;
    `replace` does nothing for an absent `old_node` and refuses an existing `new_node` before any mutation.
 R4 GraphMapper keeps `port_tokens`, `token_instances`, `token_availability` in step: a token id added
    to / removed from one of them is added to / removed from all three together; `replace_token` replaces
    exactly (old id -> new id) in the DAG; `move_token_to_root` cleans the ids returned by
-   `promote_to_source` and removes emptied ports; `remove_port` drops the port from the dependency graph and
-   both port maps; code outside GraphMapper only reads these maps.
+   `promote_to_source` and removes emptied ports; `remove_port` drops the port from the dependency graph
+   (without pruning other ports) and both port maps; code outside GraphMapper only reads these maps.
 R5 iteration safety.  No loop iterates an internal set (or map) that its body mutates without taking a copy.
 
 Not decided: equivalence with a reference graph for arbitrary operation sequences (needs execution).
@@ -57,6 +59,7 @@ FILE = "streamflow/recovery/utils.py"
 VIEWS = {"_successors": "S", "_predecessors": "P"}
 VIEW_ATTR = {v: k for k, v in VIEWS.items()}
 OTHER = {"S": "P", "P": "S"}
+QUERY_VIEW = {"successors": "S", "predecessors": "P", "out_degree": "S", "in_degree": "P", "get_sinks": "S", "get_sources": "P"}
 SET_READS = {
     "difference", "union", "intersection", "issubset", "issuperset", "isdisjoint", "copy",
     "symmetric_difference", "__contains__", "__len__", "__iter__",
@@ -75,7 +78,7 @@ META = {
     "assumptions": [
         "set/dict semantics of add/discard/remove/del",
         "graph classes defined outside /repo (plugins) are not analysed",
-        "a helper that performs one half of a mirrored pair must perform the other half too (pairs are matched per function)",
+        "pairs are matched per method after inlining helper methods of the graph classes one level; a private helper may perform one half of a pair when every caller performs the other half",
     ],
 }
 
@@ -84,10 +87,17 @@ META = {
 
 
 class Op:
-    __slots__ = ("kind", "view", "key", "val", "node", "ids")
+    """One mutation of an adjacency map.  `loop` = (view, key, var) of the enclosing loop over an adjacency
+    set that binds the op's key and executes the op in every iteration (None otherwise); `inlined` = the
+    operation is performed by a helper method called at `node`."""
 
-    def __init__(self, kind, view, key, val, node, ids):
+    __slots__ = ("kind", "view", "key", "val", "node", "ids", "loop", "inlined", "lids", "origin")
+
+    def __init__(self, kind, view, key, val, node, ids, loop=None, inlined=False):
         self.kind, self.view, self.key, self.val, self.node, self.ids = kind, view, key, val, node, ids
+        self.loop, self.inlined = loop, inlined
+        self.origin = None  # the helper's own Op when inlined
+        self.lids = ids  # CFG ids of the enclosing adjacency loop's head (or of the call site when inlined)
 
     def __repr__(self):
         return f"{self.kind}:{self.view}[{self.key}]:{self.val}"
@@ -130,8 +140,10 @@ def _empty_dict(e) -> bool:
     )
 
 
-def extract_ops(f):
-    """-> (ops, uninterpretable nodes) for the adjacency maps in function f."""
+def extract_ops(f, prog=None, _depth=0):
+    """-> (ops, uninterpretable nodes) for the adjacency maps in function f.  With `prog`, the add/discard/del
+    operations of helper methods of the graph classes called as `self.helper(args)` are inlined (one level),
+    parameters replaced by the argument expressions."""
     ops, unknown = [], []
 
     def mk(kind, view, key, val, node):
@@ -190,6 +202,44 @@ def extract_ops(f):
                         unknown.append(n)
                 elif is_self_attr(t, VIEWS):
                     unknown.append(n)
+    # loop context of every op
+    eloops = entry_loops(f)
+    for o in ops:
+        for lp, lview, lkey, _copied, var in eloops:
+            if not lp.is_comp and var == o.key and _inside(o.node, lp):
+                lids = ids_at(f, lp.node)
+                body_first = [b for i in lids for b, k in f.cfg.succ[i] if k == "t"]
+                if all(b in o.ids or f.cfg.path(b, lids, avoid=o.ids) is None for b in body_first):
+                    o.loop = (lview, lkey, var)
+                    o.lids = lids
+    # helper methods of the graph classes, one level
+    if prog is not None and _depth == 0 and f.cls is not None:
+        gcs = set(graph_classes(prog))
+        for c in f.calls():
+            fn = c.func
+            if not (isinstance(fn, ast.Attribute) and isinstance(fn.value, ast.Name) and fn.value.id == "self"):
+                continue
+            callee = prog.resolve_method(f.cls.qualname, fn.attr)
+            if callee is None or callee is f or callee.cls is None or callee.cls.qualname not in gcs:
+                continue
+            cops, _ = extract_ops(callee, prog, _depth + 1)
+            cops = [o for o in cops if o.kind in ("add", "rem", "del")]
+            if not cops:
+                continue
+            params = [p for p in callee.params if p != "self"]
+            bind = {}
+            for i, a in enumerate(c.args):
+                if i < len(params):
+                    bind[params[i]] = ktext(f, a)
+            for k in c.keywords:
+                if k.arg:
+                    bind[k.arg] = ktext(f, k.value)
+            cid = ids_at(f, c)
+            for o in cops:
+                lp = (o.loop[0], bind.get(o.loop[1], o.loop[1]), o.loop[2]) if o.loop else None
+                io = Op(o.kind, o.view, bind.get(o.key, o.key), bind.get(o.val, o.val), c, cid, loop=lp, inlined=True)
+                io.origin = o
+                ops.append(io)
     return ops, unknown
 
 
@@ -216,10 +266,43 @@ def _inside(node, loop) -> bool:
 # --------------------------------------------------------------------------- R1
 
 
+def _mirrored(g, ops, o) -> bool:
+    """The mirror image of op o exists among ops and is executed together with it."""
+    other = OTHER[o.view]
+    if o.kind == "add":
+        return any(p.kind == "add" and p.view == other and p.key == o.val and p.val == o.key and coexec(g, o.ids, p.ids) for p in ops)
+    if o.kind == "rem":
+        return any(p.kind == "rem" and p.view == other and p.key == o.val and p.val == o.key and coexec(g, o.ids, p.ids) for p in ops) or any(
+            p.kind == "del" and p.view == other and p.key == o.val and must_follow(g, o.ids, p.ids) for p in ops
+        )
+    if o.kind in ("del", "new"):
+        return any(p.kind == o.kind and p.view == other and p.key == o.key and coexec(g, o.ids, p.ids) for p in ops)
+    return False
+
+
+def _mirrored_at_callers(prog, f, o) -> bool:
+    """For a private helper: every call site lies in a graph-class method in which the inlined operation has
+    its mirror (the helper performs one half of a pair, each caller the other half)."""
+    if not f.name.startswith("_") or f.name.startswith("__"):
+        return False
+    gms = {m.qualname: m for m in graph_methods(prog)}
+    callers = prog.callers(f.qualname)
+    if not callers:
+        return False
+    for cf, _call in callers:
+        if cf.qualname not in gms or cf is f:
+            return False
+        cops, _ = extract_ops(cf, prog)
+        mine = [io for io in cops if io.inlined and io.origin is not None and io.origin.node is o.node and io.origin.kind == o.kind]
+        if not mine or not all(_mirrored(cf.cfg, cops, io) for io in mine):
+            return False
+    return True
+
+
 def r1(ctx):
     prog = ctx.prog
     for f in graph_methods(prog):
-        ops, unknown = extract_ops(f)
+        ops, unknown = extract_ops(f, prog)
         for u in unknown:
             ctx.require(False, f"C20.R1: {f.qualname}: `{unparse(u)[:80]}` mutates an adjacency map in a way the pairing rule cannot interpret")
         if not ops:
@@ -227,47 +310,37 @@ def r1(ctx):
         g = f.cfg
         for o in ops:
             ctx.require(bool(o.ids), f"C20.R1: {f.qualname}: no CFG node for `{unparse(o.node)[:60]}`")
-        eloops = entry_loops(f)
+        if all(o.inlined for o in ops):
+            continue
         for o in ops:
+            if o.inlined:
+                continue
             other = OTHER[o.view]
             inst = f"{f.name}:{o.kind}:{o.view}[{o.key}]:{o.val}"
             here = f"`{' '.join(unparse(enclosing_stmt(o.node)).split())[:70]}`"
             if o.kind == "add":
-                ps = [p for p in ops if p.kind == "add" and p.view == other and p.key == o.val and p.val == o.key]
-                ok = any(coexec(g, o.ids, p.ids) for p in ps)
+                ok = _mirrored(g, ops, o) or _mirrored_at_callers(prog, f, o)
                 ctx.ob("R1", f"{f.name}: {here} has its mirror {VIEW_ATTR[other]}[{o.val}].add({o.key})", ok, func=f, node=o.node, instance=inst,
                        message=f"edge insertion {here} is not mirrored by `self.{VIEW_ATTR[other]}[{o.val}].add({o.key})` on the same paths: the two views diverge")
             elif o.kind == "rem":
-                ps = [p for p in ops if p.kind == "rem" and p.view == other and p.key == o.val and p.val == o.key]
-                ds = [p for p in ops if p.kind == "del" and p.view == other and p.key == o.val]
-                ok = any(coexec(g, o.ids, p.ids) for p in ps) or any(must_follow(g, o.ids, d.ids) for d in ds)
+                ok = _mirrored(g, ops, o) or _mirrored_at_callers(prog, f, o)
                 ctx.ob("R1", f"{f.name}: {here} is mirrored by a removal in / deletion of {VIEW_ATTR[other]}[{o.val}]", ok, func=f, node=o.node, instance=inst,
                        message=f"edge removal {here} has no mirrored `self.{VIEW_ATTR[other]}[{o.val}].discard({o.key})` / `del self.{VIEW_ATTR[other]}[{o.val}]` on every path: a dangling edge stays in the other view")
             elif o.kind == "del":
-                ps = [p for p in ops if p.kind == "del" and p.view == other and p.key == o.key]
-                ok = any(coexec(g, o.ids, p.ids) for p in ps)
+                ok = _mirrored(g, ops, o)
                 ctx.ob("R1", f"{f.name}: {here} is paired with the deletion of {VIEW_ATTR[other]}[{o.key}]", ok, func=f, node=o.node, instance=inst,
                        message=f"{here}: the node's entry is deleted from one view only")
                 # back references: for x in A[n]: B[x].discard(n), before the deletion
-                okb = False
-                for lp, lview, lkey, _copied, var in eloops:
-                    if lview != o.view or lkey != o.key or lp.is_comp:
-                        continue
-                    lids = ids_at(f, lp.node)
-                    if not lids or not all(g.dominates(lids, d) for d in o.ids):
-                        continue
-                    for p in ops:
-                        if p.kind == "rem" and p.view == other and p.key == var and p.val == o.key and _inside(p.node, lp):
-                            body_first = [b for i in lids for b, k in g.succ[i] if k == "t"]
-                            # executed in every iteration
-                            if all(g.path(b, lids, avoid=p.ids) is None or b in p.ids for b in body_first):
-                                okb = True
+                okb = any(
+                    p.kind == "rem" and p.view == other and p.val == o.key and p.loop is not None and p.loop[0] == o.view and p.loop[1] == o.key
+                    and p.key == p.loop[2] and all(g.dominates(p.lids, d) for d in o.ids)
+                    for p in ops
+                )
                 ctx.ob("R1", f"{f.name}: before {here} the node is erased from every {VIEW_ATTR[other]}[x], x in {VIEW_ATTR[o.view]}[{o.key}]", okb, func=f, node=o.node,
                        instance=inst + ":backrefs",
                        message=f"{here} drops the node's {'outgoing' if o.view == 'S' else 'incoming'} edges from this view, but no preceding loop `for x in self.{VIEW_ATTR[o.view]}[{o.key}]: self.{VIEW_ATTR[other]}[x].discard({o.key})` removes them from the other view")
             elif o.kind == "new":
-                ps = [p for p in ops if p.kind == "new" and p.view == other and p.key == o.key]
-                ok = any(coexec(g, o.ids, p.ids) for p in ps)
+                ok = _mirrored(g, ops, o)
                 ctx.ob("R1", f"{f.name}: {here} creates the entry in both views", ok, func=f, node=o.node, instance=inst,
                        message=f"{here}: the entry is created in one view only (key sets of the two maps diverge)")
                 absent = False
@@ -290,7 +363,7 @@ def r1(ctx):
                    instance="__init__:maps")
         # reported == deleted
         rets = [n for n in f.body_nodes() if isinstance(n, ast.Return) and isinstance(n.value, ast.Name)]
-        dels = [o for o in ops if o.kind == "del" and o.view == "S"]
+        dels = [o for o in ops if o.kind == "del" and o.view == "S" and not o.inlined]
         for r in rets:
             d = deref(f, r.value)
             if not (isinstance(d, ast.List) and not d.elts) or not dels:
@@ -425,6 +498,17 @@ def r2(ctx):
                    message=f"{f.name} returns `{leak}`: callers that mutate the result (or iterate it during removal) change the graph behind its back, one view only")
     for name in ("successors", "predecessors", "get_nodes"):
         ctx.require(prog.resolve_method(GRAPH, name) is not None, f"C20.R2: query method {name} vanished")
+    # (c) each directional query reads its own view
+    for name, view in QUERY_VIEW.items():
+        for f in [m for m in graph_methods(prog) if m.name == name]:
+            used = set()
+            for r in [n for n in f.body_nodes() if isinstance(n, ast.Return) and n.value is not None]:
+                for x in ast.walk(deref(f, r.value)):
+                    if isinstance(x, ast.Attribute) and is_self_attr(x, VIEWS):
+                        used.add(VIEWS[x.attr])
+            ctx.ob("R2", f"{name} answers from {VIEW_ATTR[view]}", used == {view}, func=f, node=f.node, instance=f"{name}:view",
+                   message=f"{name} reads {sorted(VIEW_ATTR[v] for v in used)} instead of {VIEW_ATTR[view]}: the query answers for the opposite direction")
+    ctx.require(prog.resolve_method(DAG, "get_sinks") is not None and prog.resolve_method(DAG, "get_sources") is not None, "C20.R2: get_sources/get_sinks vanished")
     ctx.require(n_query >= 3, "C20.R2: query methods returning adjacency data not found")
 
 
@@ -480,6 +564,20 @@ def r3(ctx):
                 flag = any(isinstance(e, ast.Name) and e.id == "prune_dead_end" and truth for e, truth, _t in atoms)
                 ctx.ob("R3", f"{f.name}: ancestors are queued only under prune_dead_end", flag, func=f, node=c, instance=inst + ":flag",
                        message="ancestors are pruned although prune_dead_end is false (remove_port relies on prune_dead_end=False)")
+    # wrappers forward the pruning flag
+    fwd = 0
+    for f in graph_methods(prog):
+        if "prune_dead_end" not in f.params or f.name == "remove_nodes":
+            continue
+        for c in f.calls():
+            if f"{GRAPH}.remove_nodes" not in prog.resolve_call(f, c):
+                continue
+            fwd += 1
+            flag = c.args[1] if len(c.args) > 1 else next((k.value for k in c.keywords if k.arg == "prune_dead_end"), None)
+            ok = flag is not None and isinstance(deref(f, flag), ast.Name) and deref(f, flag).id == "prune_dead_end"
+            ctx.ob("R3", f"{f.name} forwards prune_dead_end to remove_nodes", ok, func=f, node=c, instance=f"{f.name}:forward-flag",
+                   message=f"{f.name} does not pass its prune_dead_end argument on: remove_node(n, prune_dead_end=False) would prune ancestors")
+    ctx.require(fwd >= 1, "C20.R3: remove_node -> remove_nodes forwarding not found")
     ctx.require(pushes >= 2, f"C20.R3: only {pushes} predecessor-queueing sites found (remove_nodes, promote_to_source expected)")
 
     # promote_to_source: queue -> remove_nodes(queue) with pruning, result returned; absent node ignored
@@ -714,6 +812,13 @@ def r4(ctx):
             for t in n.targets:
                 if isinstance(t, ast.Subscript) and is_self_attr(deref(f, t.value), PORT_MAPS) and ktext(f, t.slice) == pn:
                     done.add(deref(f, t.value).attr)
+    noprune = False
+    for c in f.calls():
+        if any(q in (f"{GRAPH}.remove_node", f"{GRAPH}.remove_nodes") for q in prog.resolve_call(f, c)):
+            flag = c.args[1] if len(c.args) > 1 else next((k.value for k in c.keywords if k.arg == "prune_dead_end"), None)
+            noprune = flag is not None and isinstance(flag, ast.Constant) and flag.value is False
+    ctx.ob("R4", "remove_port removes only this port from dcg_ports (no dead-end pruning)", noprune, func=f, node=f.node, instance="remove_port:noprune",
+           message="remove_port lets the dependency graph prune ancestor ports that stay in port_tokens/port_name_ids: the graph and the port maps disagree")
     want = {"dcg_ports", *PORT_MAPS}
     ctx.ob("R4", "remove_port drops the port from dcg_ports, port_name_ids and port_tokens", done == want, func=f, node=f.node, instance="remove_port:all",
            message=f"remove_port forgets {sorted(want - done)}")
@@ -790,9 +895,22 @@ def r5(ctx):
 
 
 RULES = [("R1", r1), ("R2", r2), ("R3", r3), ("R4", r4), ("R5", r5)]
-FLOORS = {"R1": 27, "R2": 20, "R3": 10, "R4": 8, "R5": 5}
+FLOORS = {"R1": 20, "R2": 16, "R3": 8, "R4": 8, "R5": 4}
 
 G = GRAPH
+_RN_TAIL = (
+    "            for succ in self._successors[current]:\n                self._predecessors[succ].discard(current)\n"
+    "            for pred in self._predecessors[current]:\n                self._successors[pred].discard(current)\n"
+    "                if prune_dead_end and (not self._successors[pred].difference(stack)):\n                    stack.append(pred)\n"
+    "            del self._successors[current]\n            del self._predecessors[current]\n        return removed_nodes\n"
+)
+_RN_TAIL_HELPER = (
+    "            self._detach_successors(current)\n"
+    "            for pred in self._predecessors[current]:\n                self._successors[pred].discard(current)\n"
+    "                if prune_dead_end and (not self._successors[pred].difference(stack)):\n                    stack.append(pred)\n"
+    "            del self._successors[current]\n            del self._predecessors[current]\n        return removed_nodes\n\n"
+    "    def _detach_successors(self, n):\n        for s in self._successors[n]:\n            self._predecessors[s].discard(n)\n"
+)
 VARIANTS = [
     # ---- R1
     V("add: predecessor side dropped", FILE, f"{G}.add", "self._successors[u].add(v)\n        self._predecessors[v].add(u)", "self._successors[u].add(v)", "R1", control=True),
@@ -801,15 +919,16 @@ VARIANTS = [
     V("_add_node: guard dropped", FILE, f"{G}._add_node", "if node not in self._successors.keys():", "if True:", "R1"),
     V("remove_nodes: successor back references kept", FILE, f"{G}.remove_nodes",
       "for succ in self._successors[current]:\n            self._predecessors[succ].discard(current)\n        ", "", "R1"),
-    V("remove_nodes: del of predecessors entry dropped", FILE, f"{G}.remove_nodes", "del self._successors[current]\n        del self._predecessors[current]", "del self._successors[current]", "R1", control=True),
+    V("remove_nodes: del of predecessors entry dropped", FILE, f"{G}.remove_nodes", "del self._successors[current]\n        del self._predecessors[current]", "del self._successors[current]", "R1"),
     V("remove_nodes: del under the prune flag only", FILE, f"{G}.remove_nodes", "del self._successors[current]\n        del self._predecessors[current]",
       "del self._successors[current]\n        if prune_dead_end:\n            del self._predecessors[current]", "R1"),
     V("remove_nodes: reported before the membership test", FILE, f"{G}.remove_nodes",
       "if (current := stack.pop()) not in self._successors.keys():\n            continue\n        removed_nodes.append(current)",
       "current = stack.pop()\n        removed_nodes.append(current)\n        if current not in self._successors.keys():\n            continue", "R1"),
-    V("replace: new successor edge not mirrored", FILE, f"{G}.replace", "self._predecessors[succ].remove(old_node)\n            self._predecessors[succ].add(new_node)",
+    V("replace: new successor edge not mirrored", FILE, f"{G}.replace", "self._predecessors[succ].remove(old_node)\n        self._predecessors[succ].add(new_node)",
       "self._predecessors[succ].remove(old_node)", "R1"),
     V("replace: old entry kept in predecessors", FILE, f"{G}.replace", "del self._successors[old_node]\n    del self._predecessors[old_node]", "del self._successors[old_node]", "R1"),
+    V("replace: stale predecessor entry of the successors kept", FILE, f"{G}.replace", "self._predecessors[succ].remove(old_node)\n        ", "", "R1"),
     V("replace: wrong variable in mirrored removal", FILE, f"{G}.replace", "self._successors[pred].remove(old_node)", "self._successors[pred].remove(new_node)", "R1"),
     V("promote: incoming edges kept in predecessor view", FILE, f"{DAG}.promote_to_source", "self._predecessors[node].discard(pred)\n        ", "", "R1"),
     V("uninterpretable mutation (update) is refused", FILE, f"{G}.add", "self._successors[u].add(v)", "self._successors[u].update({v})", "R1"),
@@ -821,6 +940,8 @@ VARIANTS = [
       "self.port_tokens.pop(port_name, None)\n    self.dcg_ports._successors.pop(port_name, None)", "R2"),
     V("external reader of _predecessors (module function)", FILE, None, None, None, "R2",
       append="def _peek(graph, n):\n    return graph._predecessors[n]\n"),
+    V("get_sources computed from the successor view", FILE, f"{DAG}.get_sources", "self._predecessors.items()", "self._successors.items()", "R2"),
+    V("in_degree counts successors", FILE, f"{G}.in_degree", "self._predecessors.items()", "self._successors.items()", "R2"),
     # ---- R3
     V("remove_nodes: pruning without the emptiness test", FILE, f"{G}.remove_nodes", "if prune_dead_end and (not self._successors[pred].difference(stack)):", "if prune_dead_end:", "R3", control=True),
     V("remove_nodes: pruning regardless of the flag", FILE, f"{G}.remove_nodes", "if prune_dead_end and (not self._successors[pred].difference(stack)):",
@@ -835,7 +956,9 @@ VARIANTS = [
     V("promote: result of remove_nodes dropped", FILE, f"{DAG}.promote_to_source", "return self.remove_nodes(to_delete)", "self.remove_nodes(to_delete)\n    return to_delete", "R3"),
     V("replace: existing new_node merged", FILE, f"{G}.replace", "if new_node in self._successors.keys():", "if False:", "R3"),
     V("replace: absent old_node not ignored", FILE, f"{G}.replace", "if old_node not in self._successors.keys():\n        return\n    ", "", "R3"),
+    V("remove_node: pruning flag not forwarded", FILE, f"{G}.remove_node", "return self.remove_nodes([node], prune_dead_end=prune_dead_end)", "return self.remove_nodes([node])", "R3"),
     # ---- R4
+    V("remove_port: ancestors pruned from dcg_ports only", FILE, f"{MAPPER}.remove_port", "self.dcg_ports.remove_node(port_name, prune_dead_end=False)", "self.dcg_ports.remove_node(port_name)", "R4"),
     V("replace_token: old availability kept", FILE, f"{MAPPER}.replace_token", "self.token_availability.pop(old_token_id)\n    ", "", "R4", control=True),
     V("replace_token: new instance not stored", FILE, f"{MAPPER}.replace_token", "self.token_instances[token.persistent_id] = token\n    ", "", "R4"),
     V("replace_token: wrong id removed from the port", FILE, f"{MAPPER}.replace_token", "self.port_tokens[port_name].remove(old_token_id)", "self.port_tokens[port_name].remove(token.persistent_id)", "R4"),
@@ -849,7 +972,8 @@ VARIANTS = [
     # ---- benign
     V("benign: mirrored statements swapped", FILE, f"{G}.add", "self._successors[u].add(v)\n        self._predecessors[v].add(u)", "self._predecessors[v].add(u)\n        self._successors[u].add(v)", None),
     V("benign: remove <-> discard", FILE, f"{G}.replace", ".remove(old_node)", ".discard(old_node)", None, count=2),
-    V("benign: rename loop variables", FILE, f"{G}.remove_nodes", "succ", "child", None, count=2),
+    V("benign: rename loop variables", FILE, f"{G}.remove_nodes", "for succ in self._successors[current]:\n            self._predecessors[succ].discard(current)",
+      "for child in self._successors[current]:\n            self._predecessors[child].discard(current)", None),
     V("benign: temporary for the entry set", FILE, f"{G}.add", "self._successors[u].add(v)", "out_edges = self._successors[u]\n        out_edges.add(v)", None),
     V("benign: logging between mirrored statements", FILE, f"{G}.remove_nodes", "del self._successors[current]\n        del self._predecessors[current]",
       "del self._successors[current]\n        logger.debug('removed')\n        del self._predecessors[current]", None),
@@ -858,5 +982,12 @@ VARIANTS = [
     V("benign: replace_token statements reordered", FILE, f"{MAPPER}.replace_token", "self.token_availability.pop(old_token_id)\n    self.token_instances.pop(old_token_id)",
       "self.token_instances.pop(old_token_id)\n    self.token_availability.pop(old_token_id)", None),
     V("benign: successors via frozenset copy", FILE, f"{G}.successors", "return set(self._successors[node])", "result = frozenset(self._successors[node])\n    return result", None),
+    V("benign: back-reference loop extracted into a helper method", FILE, G, _RN_TAIL, _RN_TAIL_HELPER, None),
+    V("benign: walrus split into two statements", FILE, f"{G}.remove_nodes", "if (current := stack.pop()) not in self._successors.keys():\n            continue",
+      "current = stack.pop()\n        if current not in self._successors:\n            continue", None),
+    V("benign: pop instead of del", FILE, f"{G}.remove_nodes", "del self._successors[current]\n        del self._predecessors[current]",
+      "self._successors.pop(current)\n        self._predecessors.pop(current)", None),
+    V("benign: nested ifs for the pruning guard", FILE, f"{G}.remove_nodes", "if prune_dead_end and (not self._successors[pred].difference(stack)):\n                stack.append(pred)",
+      "if prune_dead_end:\n                if not self._successors[pred].difference(stack):\n                    stack.append(pred)", None),
     V("benign: contains() used for the replace guard", FILE, f"{G}.replace", "if new_node in self._successors.keys():", "if self.contains(new_node):", None),
 ]
